@@ -24,8 +24,8 @@ func init() {
 			"encodings and non-UTC zones, per-entry extensions, issuer parsed / unparsed, with / without SKID); CreateRevocationList (Number 0..2^159-1, entries with ReasonCode nil/0/1..10, user-supplied " +
 			"reasonCode extra extension, other entry and list extensions, empty list, every SignatureAlgorithm valid for the key, both time encodings) x RSA / ECDSA P-224..P-521 / Ed25519; " +
 			"plus the documented rejections of CreateRevocationList. non-trivial = object created and parsed with at least one optional element (SAN, extension or entry); distinct by template description",
-		MinNontrivial:         1200,
-		MinNontrivialThorough: 40000,
+		MinNontrivial:         1250,
+		MinNontrivialThorough: 30000,
 		Shards:                16,
 		Env:                   []string{"GODEBUG=rsa1024min=0"},
 		Assumptions: []string{
